@@ -715,6 +715,10 @@ class Interp:
                 v = self.decide(("is",) + tuple(sorted([l, r], key=repr)))
             return v if isinstance(op, ast.Is) else not v
         if isinstance(op, (ast.In, ast.NotIn)):
+            if r[0] == "get" and self.path.valuation.get(
+                    ("contains", r[2], r[1])) is True:
+                # d.get(k) where k is known to be in d  is  d[k]
+                r = ("index", r[1], r[2])
             tbl = self._global_table(r)
             if tbl is not None:
                 # membership in a module-level literal table
